@@ -187,6 +187,7 @@ def run(R):
         check_cursor_pair(c, repo)
     with R.clause('D8', 'RESOLVE', floor=40, desc='every call an action / terminal method makes on the screen resolves to an existing method with a fitting arity (no AttributeError / TypeError at run time)') as c:
         check_resolve(c, repo, acts)
+        check_total_lookups(c, repo, acts)
     with R.clause('D7', 'PRECEDENCE', floor=4, desc='FSM: exact > any > default; action runs before the state is committed') as c:
         check_fsm_class(c, repo)
 
@@ -583,6 +584,70 @@ def check_resolve(c, repo, acts):
                     kind='flow', tag='arity:%s:%s' % (f.qual, norm(k)[:30]))
 
 
+def _literal_tables(mod):
+    """module-level names bound once to a literal dict / list / tuple"""
+    out, cnt = {}, {}
+    for st in mod.tree.body:
+        if isinstance(st, ast.Assign):
+            for t in st.targets:
+                if isinstance(t, ast.Name):
+                    cnt[t.id] = cnt.get(t.id, 0) + 1
+                    out[t.id] = st.value
+    return dict((k, v) for k, v in out.items() if cnt[k] == 1 and isinstance(v, (ast.Dict, ast.List, ast.Tuple)))
+
+
+def check_total_lookups(c, repo, acts):
+    """A parser action runs for EVERY numeric parameter the stream can carry: a lookup of such a value in a finite literal table
+    (TABLE[arg], TABLE.index(arg)) raises for the values the table lacks, out of write().  Accepted: constant keys the table has,
+    a dominating `arg in TABLE` test, a try that catches the lookup error, dict.get()."""
+    mod = repo.modules['ANSI']
+    tables = _literal_tables(mod)
+    n = 0
+    for a in acts:
+        f = action_func(repo, a)
+        g = f.cfg
+        al = aliases_of(f)
+        for node in g.nodes:
+            if node.ast is None:
+                continue
+            for x in node_roots(node):
+                for sub in ast.walk(x):
+                    if not (isinstance(sub, ast.Subscript) and isinstance(sub.ctx, ast.Load)):
+                        continue
+                    base = sub.value
+                    tv = None
+                    if isinstance(base, ast.Name) and base.id not in al.counts and base.id not in f.params:
+                        tv = tables.get(base.id)
+                    elif isinstance(base, (ast.Dict, ast.List, ast.Tuple)):
+                        tv = base
+                    elif isinstance(base, ast.Name) and isinstance(al.single_assign.get(base.id), (ast.Dict, ast.List, ast.Tuple)):
+                        tv = al.single_assign[base.id]
+                    if tv is None:
+                        continue
+                    n += 1
+                    key = sub.slice
+                    sentinel = object()
+                    kv = const_value(key, sentinel)
+                    if kv is not sentinel:
+                        if isinstance(tv, ast.Dict):
+                            ok = any(k_ is not None and const_value(k_, sentinel) == kv for k_ in tv.keys)
+                        else:
+                            ok = isinstance(kv, int) and -len(tv.elts) <= kv < len(tv.elts)
+                        c.check(ok, f, sub, 'constant key %r is in the table' % (kv,), kind='ast', tag='const-key:%s:%s' % (f.qual, norm(sub)[:30]))
+                        continue
+                    conds = conditions(g, node)
+                    guarded = any(v and at.startswith(norm(key) + ' in ') for at, v in conds)
+                    tried = any(isinstance(p_, ast.Try) and any(h.type is None or norm(h.type) in ('KeyError', 'IndexError', 'LookupError', 'Exception') or
+                                                                (isinstance(h.type, ast.Tuple) and any(norm(e_) in ('KeyError', 'IndexError', 'LookupError', 'Exception') for e_ in h.type.elts))
+                                                                for h in p_.handlers) and any(sub is y for st_ in p_.body for y in ast.walk(st_))
+                                for p_ in parent_chain(sub))
+                    c.check(guarded or tried, f, sub,
+                            'a value taken from the stream is looked up in the finite table %s only under a membership test / a handler for the lookup error '
+                            '(otherwise a parameter the table lacks raises out of write())' % norm(base)[:30],
+                            witness=norm(sub), kind='flow', tag='total-lookup:%s:%s' % (f.qual, norm(sub)[:30]))
+    c.instances_note = n
+
+
 def check_cursor_pair(c, repo):
     n = 0
     for f in repo.package_funcs():
@@ -695,6 +760,7 @@ def check_fsm_class(c, repo):
 
 
 MUTANTS = [
+    ('erase-lookup-table', 'ANSI', '    arg = int(fsm.memory.pop())\n    screen = fsm.memory[0]\n    if arg == 0:\n        screen.erase_down()\n    elif arg == 1:\n        screen.erase_up()\n    elif arg == 2:\n        screen.erase_screen()\n', "    arg = int(fsm.memory.pop())\n    screen = fsm.memory[0]\n    getattr(screen, {0: 'erase_down', 1: 'erase_up', 2: 'erase_screen'}[arg])()\n", 'D8'),
     ('no-default', 'ANSI', "        self.state.set_default_transition (DoLog, 'INIT')\n", "", 'D1'),
     ('typo-next-state', 'ANSI', "self.state.add_transition (';', 'NUMBER_2', None, 'SEMICOLON_X')", "self.state.add_transition (';', 'NUMBER_2', None, 'SEMICOLON_Z')", 'D1'),
     ('home-pops-once', 'ANSI', "    c = int(fsm.memory.pop())\n    r = int(fsm.memory.pop())\n    screen = fsm.memory[0]\n    screen.cursor_home (r,c)", "    c = int(fsm.memory.pop())\n    r = c\n    screen = fsm.memory[0]\n    screen.cursor_home (r,c)", 'D2'),
@@ -724,4 +790,6 @@ MUTANTS = [
     ('fsm-any-first', 'FSM', "        if (input_symbol, state) in self.state_transitions:\n            return self.state_transitions[(input_symbol, state)]\n        elif state in self.state_transitions_any:\n            return self.state_transitions_any[state]", "        if state in self.state_transitions_any:\n            return self.state_transitions_any[state]\n        elif (input_symbol, state) in self.state_transitions:\n            return self.state_transitions[(input_symbol, state)]", 'D7'),
     ('fsm-commit-first', 'FSM', "        if self.action is not None:\n            self.action (self)\n        self.current_state = self.next_state\n        self.next_state = None", "        self.current_state = self.next_state\n        if self.action is not None:\n            self.action (self)\n        self.next_state = None", 'D7'),
 ]
-PRESERVING = []
+PRESERVING = [
+    ('erase-lookup-guarded', 'ANSI', '    arg = int(fsm.memory.pop())\n    screen = fsm.memory[0]\n    if arg == 0:\n        screen.erase_down()\n    elif arg == 1:\n        screen.erase_up()\n    elif arg == 2:\n        screen.erase_screen()\n', "    arg = int(fsm.memory.pop())\n    screen = fsm.memory[0]\n    table = {0: 'erase_down', 1: 'erase_up', 2: 'erase_screen'}\n    if arg in table:\n        getattr(screen, table[arg])()\n"),
+]
